@@ -93,6 +93,9 @@ func c14Scenarios(tier string) []*core.Scenario {
 			a := pool[c.Pick("a", len(pool))]
 			b := pool[c.Pick("b", len(pool))]
 			return &core.Case{
+				// the pair itself runs in a fresh process too: always in the thorough tier, in the quick tier when both
+				// statements have a memory operand (the forms that share encoder state)
+				FreshAll:  tier == "thorough" || (strings.Contains(a, "[") && strings.Contains(b, "[")),
 				Key:       fmt.Sprintf("BITS %d|%s ; %s", mode, a, b),
 				Feat:      feat("mode", fmt.Sprint(mode), "a", a, "b", b),
 				FreshRefs: true, Srcs: []string{c14Prog(mode, []string{a, b}), c14Prog(mode, []string{a}), c14Prog(mode, []string{b}), c14Prog(mode, nil)},
